@@ -100,6 +100,9 @@ impl Family for C18Family {
         }
         for op in c.actors[0].ops.iter_mut() {
             if r.chance(1, 4) {
+                op.list_transports = (0..4).map(|_| r.below(6) as u8).collect();
+            }
+            if r.chance(1, 4) {
                 op.unknown_type = if r.bool() { vec![true; 4] } else { (0..4).map(|_| r.bool()).collect() };
             }
         }
